@@ -78,6 +78,63 @@ impl Gen {
         self.n += 1;
         let prop = self.prop.clone();
         match prop.as_str() {
+            "C01" | "C08" | "C09" | "C10" | "C11" | "C12" | "C15" | "C18" if self.n % 3 == 1 => {
+                // structured mutation: a well-formed packet from the independent encoder with one or two length-like bytes
+                // nudged to a neighbouring value (boundary cases of every length / count / offset comparison)
+                let want = if prop == "C10" || (prop == "C01" && rng.chance(1, 2)) { "C03" } else { "C06" };
+                let c = any_cfg(rng, want);
+                let mut b = match ref_encode(&c) {
+                    Some(b) => b,
+                    None => packet_bytes(rng),
+                };
+                if want == "C03" && b.len() > 12 && rng.chance(1, 2) {
+                    // SDES: pick an item header by walking the first chunk and move its PRIV prefix length / item length
+                    // onto the boundary of the item or of the packet
+                    let mut q = 8usize;
+                    let mut items = vec![];
+                    while q + 1 < b.len() && b[q] != 0 {
+                        items.push(q);
+                        q += 2 + b[q + 1] as usize;
+                    }
+                    if !items.is_empty() {
+                        let at = items[rng.below(items.len() as u64) as usize];
+                        if rng.chance(2, 3) {
+                            b[at] = 8;
+                        }
+                        let l = b[at + 1];
+                        if at + 2 < b.len() {
+                            match rng.below(6) {
+                                0 => b[at + 2] = l,
+                                1 => b[at + 2] = l.wrapping_sub(1),
+                                2 => b[at + 2] = l.wrapping_add(1),
+                                3 => b[at + 1] = (b.len() - at - 2).min(255) as u8,
+                                4 => b[at + 1] = (b.len() - at - 1).min(255) as u8,
+                                _ => b[at + 1] = (b.len() - at - 3).min(255) as u8,
+                            }
+                        }
+                    }
+                }
+                let k = rng.below(3);
+                for _ in 0..k {
+                    if b.is_empty() {
+                        break;
+                    }
+                    let i = if rng.chance(1, 3) { rng.below(4.min(b.len()) as u64) as usize } else { rng.below(b.len() as u64) as usize };
+                    // values taken from the neighbourhood: other small bytes in the packet (lengths), +-1, item types
+                    let near = b[rng.below(b.len() as u64) as usize];
+                    b[i] = match rng.below(8) {
+                        0 => b[i].wrapping_add(1),
+                        1 => b[i].wrapping_sub(1),
+                        2 => near,
+                        3 => near.wrapping_add(1),
+                        4 => near.wrapping_sub(1),
+                        5 => 8, // PRIV
+                        6 => 0,
+                        _ => rng.byte(),
+                    };
+                }
+                Some(J::obj(vec![("prop", J::s(&prop)), ("kind", J::s("bytes")), ("bytes", J::s(&hex(&b)))]))
+            }
             "C01" | "C08" | "C09" | "C10" | "C11" | "C12" | "C15" | "C18" if !(prop == "C10" && self.n % 2 == 0) => {
                 let mut b = packet_bytes(rng);
                 if rng.chance(1, 4) {
